@@ -87,6 +87,9 @@ def run(tier, seed):
                # exponents beyond the float range on units whose prefixes have different bases (rescaled through float logarithms)
                "KiB^" + "9" * 400 + " km", "kB^" + "9" * 400, "km/KiB^" + "9" * 400, "5 kB^" + "9" * 400, "kB" + "⁹" * 400, "km^" + "9" * 400 + " KiB",
                "KiB^-" + "9" * 400 + "/km", "km^" + "9" * 400, "Kib^999 km", "MiB^" + "1" + "0" * 310 + "⋅ms"]
+    # the window in which int * float does not overflow yet but the product is already infinite
+    special += [u + "^" + sgn + "1" + "0" * k for u in ("kB", "KiB⋅km", "Mib ms") for sgn in ("", "-") for k in (300, 305, 306, 307, 308, 309)]
+    special += ["5 kB^2" + "0" * 307, "kB" + "¹" + "⁰" * 308]
     cases = list(special)
     while len(cases) < n:
         r = rng.random()
